@@ -1,6 +1,6 @@
 """C17 - reading a routine-local variable before writing it is rejected.
 
-spec -> code: behaviours of spec/Builder.tla over alphabets whose variables are NOT initialised up front
+spec -> code: behaviours of spec/Gen.tla over alphabets whose variables are NOT initialised up front
 (branches, Cond arms, zero-iteration loops, Break/Continue exits, early returns, routines with locals).
 code -> spec: the real compile outcome (TEAL / PyTeal error + the variable named by the error's cause) is
 judged by TLC on spec/Compile.tla against spec/DefInit.tla: if some syntactic path reaches a load of a
@@ -59,7 +59,7 @@ def main():
     chk.cov["distinct_nontrivial"] = len(shapes)
     chk.notes.update({"recipes": len(progs), "must_reject_recipes": must, "initialised_recipes": ok_init,
                       "rejections_observed": rejected,
-                      "rule": "programs = finished behaviours of spec/Builder.tla without up-front initialisation; non-trivial = "
+                      "rule": "programs = finished behaviours of spec/Gen.tla without up-front initialisation; non-trivial = "
                               "distinct recipe for which DefInit.tla finds a path to an unwritten local load (must-reject)"})
     if must == 0:
         chk.machinery_failure("vacuous: no must-reject recipe was generated")
